@@ -66,7 +66,7 @@ package types
 
 //@ func (AccountAccessor).GetEquityState   trusted
 //@   modifies nothing
-//@   ensures result1 == nil ==> result0 != nil && hasEquity(recv, id) && (result0.Equity != nil ==> val(result0.Equity) == equityOf(recv, id))
+//@   ensures result1 == nil ==> result0 != nil && hasEquity(recv, id) && result0.Equity != nil && val(result0.Equity) == equityOf(recv, id)
 //@   ensures result1 != nil ==> result0 == nil
 //@   ensures result1 == ErrEquityNotExist ==> !hasEquity(recv, id)
 
